@@ -627,7 +627,12 @@ func (g *g) wordParts(pieces []Piece, label string, first, value bool) ([]string
 	openDollar := false // previous literal ends in "$"
 	add := func(txt string) { pieces = append(pieces, Piece{Text: txt}) }
 	for i := 0; i < n; i++ {
-		k := g.ch.Intn(12, "partkind")
+		k := g.ch.Intn(13, "partkind")
+		if k == 12 {
+			k = 10
+		} else if k == 10 || k == 11 {
+			k = 0
+		}
 		if g.o.NoSubst && (k == 7 || k == 8 || k == 9) {
 			k = 0
 		}
@@ -707,6 +712,21 @@ func (g *g) wordParts(pieces []Piece, label string, first, value bool) ([]string
 			add("))")
 			ps = append(ps, skel.Arith(parts))
 			g.f("word:arith")
+		case 10:
+			// a "$" that starts no expansion is literal text; it begins a new
+			// literal part (the lexer has flushed what came before it)
+			if i != n-1 || g.bq {
+				w := g.pick("sq2", "q", "a b")
+				add("'" + w + "'")
+				ps = append(ps, skel.Quote("'", []string{skel.Lit(w)}))
+				break
+			}
+			w := "$" + g.pick("dollar_tail", "", "", ",x", ".", "/", "%", "=1", ":", "+", "^")
+			add(w)
+			ps = append(ps, skel.Lit(w))
+			lastLit, openName = true, false
+			g.f("word:literal_dollar")
+			continue
 		}
 		lastLit, openName, openDollar = false, false, false
 	}
@@ -1162,8 +1182,8 @@ func (g *g) heredoc(n string) string {
 	h.Body = body.String()
 	h.BodySkel = ps
 	h.Delim = delim
-	if op == "<<-" && g.chance("hd_tab_delim", 2) {
-		h.Delim = "\t" + delim
+	if op == "<<-" {
+		h.Delim = strings.Repeat("\t", g.ch.Intn(4, "hd_tab_delim")) + delim
 	}
 	wt := g.s.add(text(KWord, wordTxt))
 	wt.HD = h
